@@ -138,6 +138,23 @@ impl AnyFilter {
             AnyFilter::Set(f) => AnyFilter::Set(f.clone()),
         }
     }
+    /// `Clone::clone_from`; false if the variants differ
+    pub fn clone_from_other(&mut self, src: &AnyFilter) -> bool {
+        match (self, src) {
+            (AnyFilter::Bloom(a), AnyFilter::Bloom(b)) => a.clone_from(b),
+            (AnyFilter::Cuckoo(a, pa), AnyFilter::Cuckoo(b, _)) => {
+                let _ = crate::rng::take_last_clone_probe();
+                a.clone_from(b);
+                if let Some(p) = crate::rng::take_last_clone_probe() {
+                    *pa = p;
+                }
+            }
+            (AnyFilter::Quotient(a), AnyFilter::Quotient(b)) => a.clone_from(b),
+            (AnyFilter::Set(a), AnyFilter::Set(b)) => a.clone_from(b),
+            _ => return false,
+        }
+        true
+    }
     pub fn rng_pos(&self) -> u64 {
         match self {
             AnyFilter::Cuckoo(_, p) => p.pos(),
